@@ -760,5 +760,8 @@ def replay(ctx, check, case):
         mode = case["mode"]
         probe = _probe_ids(template, ids, mode)
         execute_sched(ctx, template, probe, mode, case["kind"], FixedSchedule(case.get("schedule", [])), case)
+        if not ctx.violations:
+            # a pinned schedule goes stale whenever the code gains or loses a file-system call: explore the pair
+            _part_sched(ctx, (mode, case["kind"], 1, 200))
     else:
         raise HarnessError(f"unknown check {check!r}")
